@@ -41,6 +41,10 @@ KEYS = {
     "tuple": lambda c: tuple(c),
     "first": lambda c: c[0],
     "first2": lambda c: sum(c[:2]),
+    # monotone but not additive: the key of an extension says nothing about the order of its siblings
+    "spread": lambda c: max(c) - min(c),
+    "distinct": lambda c: len(set(c)),
+    "maxlen": lambda c: (max(c), len(c)),
 }
 # 'lex': appending an element to c can only keep or raise the descending-sorted tuple in lexicographic order? no:
 # (3,) -> (3,1) is greater (longer with equal prefix); (1,) -> (3,1) greater. Monotone: yes.
